@@ -28,6 +28,7 @@ class Monitor(object):
         self.incarnation = {}
         self.max_term_seen = {}   # voter -> (term, incarnation)
         self.max_term_ever = {}   # voter -> highest term it ever was in (all incarnations)
+        self.dump_conflict = {}
         self.acked = {}           # nid -> {idx: term} acknowledged to a leader or counted as leader
         self.member_since = {}
         self.heard = {}
@@ -221,7 +222,13 @@ class Monitor(object):
         # C11 / C12: nothing escapes the tick or the message handler
         if sim.exc and k in ('tick', 'deliver'):
             empty = len(g(o, 'raftLog')) == 0
-            self.rec('C12' if sim.exc == 1 else 'C11',
+            if empty and self.kills:
+                # a voter lost its memory earlier (C01-C04 are stated without that): committed entries were cut, the
+                # compaction behind them emptied the log - kept apart like the safety records themselves
+                self.after_memory_loss.append(('C11', 'exception with an empty log after a memory loss', self.step))
+                empty = None
+            if empty is not None:
+              self.rec('C12' if sim.exc == 1 else 'C11',
                      'exception escaped %s of node %d: %s%s' % (k, nid, getattr(sim, 'exc_repr', sim.exc),
                                                                 ' (its log is empty)' if empty else ''),
                      finding=('KF-C07-1' if (empty and 'kf_c07_1' in self.trigger) else
@@ -604,6 +611,11 @@ class Monitor(object):
             if ev[0] == 'restart':
                 # before the dump is loaded (first tick): what the dump file covers is not owed by the journal
                 base = max(base, self.dump_position(rec, sim, nid) + 1)
+                # a dump that disagrees with the journal at its own position: an applied entry was overwritten later,
+                # i.e. state-machine safety was already lost (after a restarted voter forgot its vote: KF-C07-1)
+                d = self.dump_entries(rec, sim, nid)
+                self.dump_conflict[nid] = bool(d) and any(
+                    self.entry_at(log, x[1]) is not None and self.entry_at(log, x[1])[2] != x[2] for x in d)
             lost = [i for i, t in sorted(ack.items()) if i >= base and (self.entry_at(log, i) is None or self.entry_at(log, i)[2] != t)]
             if lost:
                 last_kill = [x for x in self.kill_infos if x['node'] == nid]
@@ -620,23 +632,29 @@ class Monitor(object):
                          % (nid, lost[:6], base, log[-1][1] if log else 0,
                             ' after a kill inside the journal head drop' if inside else
                             ' (entries of a term older than term %d it had acknowledged before an earlier restart)' % top if stale else ''),
-                         finding='KF-C08-1' if (inside or damaged) else ('KF-C07-2' if (stale and 'kf_c07_1' in self.trigger) else None))
+                         finding='KF-C08-1' if (inside or damaged) else
+                         ('KF-C07-2' if ((stale or self.dump_conflict.get(nid)) and 'kf_c07_1' in self.trigger) else None))
                 if inside:
                     self.trigger.setdefault('kf_c08_1_effect', self.step)
             for i in [i for i in ack if i > (log[-1][1] if log else 0)]:
                 del ack[i]
 
 
-    def dump_position(self, rec, sim, nid):
+    def dump_entries(self, rec, sim, nid):
         import os, gzip, pickle
         if rec.cfg.get('dump') != 'file' or sim.workdir is None or rec.cfg.get('custom'):
-            return 0
+            return None
         try:
             with open(os.path.join(sim.workdir, 'dump_%d' % nid), 'rb') as f:
                 with gzip.GzipFile(fileobj=f) as gz:
-                    return pickle.load(gz)[1][1]
+                    d = pickle.load(gz)
+                    return d[2], d[1]
         except Exception:
-            return 0
+            return None
+
+    def dump_position(self, rec, sim, nid):
+        d = self.dump_entries(rec, sim, nid)
+        return d[1][1] if d else 0
 
     def check_dump_file(self, rec, sim, nid):
         import os, gzip, pickle
